@@ -766,18 +766,52 @@ class Body:
                     return self._mutref_target(a, depth + 1)
         return None
 
-    def derived_from(self, l):
-        """Backward closure: all locals the value of local l may derive from (incl. l)."""
+    def derived_from(self, l, through_mutation=True):
+        """Backward closure: all locals the value of local l may derive from (incl. l).
+        through_mutation=False ignores edges that exist only because a `&mut X` argument may be written
+        by a callee from its other arguments."""
         g = self.flow_graph()
+        if through_mutation:
+            key = ('df', l)
+        else:
+            key = ('dfn', l)
+        cache = self.__dict__.setdefault('_dfcache', {})
+        if key in cache:
+            return cache[key]
+        plain = self._plain_edges() if not through_mutation else None
         seen = {l}
         dq = deque([l])
         while dq:
             x = dq.popleft()
             for y in g.get(x, ()):
-                if y not in seen:
-                    seen.add(y)
-                    dq.append(y)
+                if y in seen:
+                    continue
+                if plain is not None and (x, y) in self._mut_edges and (x, y) not in plain:
+                    continue
+                seen.add(y)
+                dq.append(y)
+        cache[key] = seen
         return seen
+
+    def _plain_edges(self):
+        if hasattr(self, '_pe'):
+            return self._pe
+        pe = set()
+        for bi in range(self.n):
+            if self.cleanup[bi]:
+                continue
+            for s in self.stmts(bi):
+                if s['k'] == 'a':
+                    for pl in rv_places(s['rv']):
+                        pe.add((s['p'][0], pl[0]))
+            t = self.term[bi]
+            if t and t['k'] == 'call':
+                for a in t['args']:
+                    l = op_local(a)
+                    if l is not None:
+                        pe.add((t['d'][0], l))
+        self._pe = pe
+        return pe
 
     def taint_forward(self, srcs):
         """Forward closure: all locals that may derive from any of srcs."""
